@@ -685,6 +685,20 @@ def r7_local_clean(ctx):
         for m_ in corpus.modules.values():
             if m_ is not ci.module:
                 pool += [f_ for n_, f_ in m_.functions.items() if n_ in called and n_ not in ci.module.functions]
+        # the removal itself: rmdir, which refuses a directory that is no longer empty.  A recursive / forgiving removal
+        # destroys an object another client stored in the directory after the scan classified it
+        removers = [c for f_ in [cl] + [m for m in pool if any((isinstance(a, ast.Attribute) and a.attr == m.name) or (isinstance(a, ast.Name) and a.id == m.name) for a in ast.walk(cl.node))] for c in calls_in(f_.node) if (dotted(c.func) or '').rsplit('.', 1)[-1] in ('rmtree', 'removedirs', 'unlink', 'remove', 'rmdir')]
+        for c in removers:
+            nm_ = (dotted(c.func) or '').rsplit('.', 1)[-1]
+            ctx.check(
+                nm_ == 'rmdir',
+                'C03.R7',
+                f'{func_label(cl)}|clean-removes-with-rmdir-only',
+                loc(cl, c),
+                f'{ci.name}.clean removes directories with rmdir (fails, and is retried, if something was stored there meanwhile)',
+                f'{ci.name}.clean removes with `{src(c, 60)}`: a directory that received an object after it was classified empty (another client\'s upload) is destroyed together with that object - '
+                'clean deletes a chunk / snapshot that is referenced',
+            )
         gens = [m for m in pool if any(isinstance(y, ast.Yield) for y in walk_local(m.node)) and any((dotted(c.func) or '') == 'os.scandir' for c in calls_in(m.node)) and any((isinstance(a, ast.Attribute) and a.attr == m.name) or (isinstance(a, ast.Name) and a.id == m.name) for a in ast.walk(cl.node))]
         if not gens:
             if any((dotted(c.func) or '').endswith('rmdir') for c in calls_in(cl.node)):
